@@ -28,6 +28,7 @@ func (c *Context) New() hctx.Context {
 
 // Set a value onto the context
 func (c *Context) Set(key string, value interface{}) {
+	defer verifCtx("set", c, key, value, nil)
 	c.moot.Lock()
 	defer c.moot.Unlock()
 
@@ -84,12 +85,14 @@ func NewContextWith(data map[string]interface{}) *Context {
 		outer:   nil,
 		moot:    &sync.Mutex{},
 	}
+	verifCtx("new", c, "", nil, nil)
 
 	for k, v := range Helpers.All() {
 		if !c.Has(k) {
 			c.Set(k, v)
 		}
 	}
+	verifCtx("newdone", c, "", nil, nil)
 
 	return c
 }
@@ -104,12 +107,14 @@ func NewContextWithOuter(data map[string]interface{}, out *Context) *Context {
 		outer:   out,
 		moot:    &sync.Mutex{},
 	}
+	verifCtx("new", c, "", nil, out)
 
 	for k, v := range Helpers.All() {
 		if !c.Has(k) && !c.outer.Has(k) {
 			c.Set(k, v)
 		}
 	}
+	verifCtx("newdone", c, "", nil, nil)
 
 	return c
 }
